@@ -51,12 +51,14 @@ func (pd *pollDesc) WaitWrite(ctx context.Context) (err error) {
 		}
 	}
 
+	verifPoint(vpDialBeforeWait, pd.operator, 0)
 	select {
 	case <-pd.writeTrigger: // triggered by poller
 	case <-pd.closeTrigger: // triggered by poller
 		// no need to detach, since poller has done it in OnHup.
 		return Exception(ErrConnClosed, "by peer")
 	case <-ctx.Done(): // triggered by ctx
+		verifPoint(vpDialCtxDone, pd.operator, 0)
 		// deregister from poller, upper caller function will close fd
 		pd.detach()
 		return mapErr(ctx.Err())
@@ -71,6 +73,7 @@ func (pd *pollDesc) WaitWrite(ctx context.Context) (err error) {
 }
 
 func (pd *pollDesc) onwrite(p Poll) error {
+	verifPoint(vpDialOnWrite, pd.operator, 0)
 	select {
 	case <-pd.writeTrigger:
 	default:
@@ -81,6 +84,7 @@ func (pd *pollDesc) onwrite(p Poll) error {
 }
 
 func (pd *pollDesc) onhup(p Poll) error {
+	verifPoint(vpDialOnHup, pd.operator, 0)
 	select {
 	case <-pd.closeTrigger:
 	default:
